@@ -31,8 +31,8 @@ CHECKS = {
     },
     "C03": {
         "category": "proof",
-        "technique": "Verus contracts (with bit-vector lemmas) on the mechanically extracted pure size-class/alignment helpers of dlmalloc.rs + Kani loop-free full-domain proofs of the same helpers on the compiled crate",
-        "text": "PARTIAL — arithmetic helpers only, not the heap property: for all inputs Verus proves the contracts of align_up, pad_request, request2size, small_index, small_index2size, is_small, is_aligned, align_offset_usize, mmap_align, least_bit and leftshift_for_tree_index (results in range, aligned, large enough, bounded waste, no arithmetic overflow under the stated preconditions; small-bin round trip as a lemma over the contracts); Kani proves on the compiled crate, for every input (loop-free), the same contracts plus compute_tree_index (in range, monotone, size inside its bin's bracket), left_bits, request2size monotonicity, and that the constants restated in the Verus unit are the crate's. The statement of C03 about live blocks over arbitrary histories (disjointness, intactness, OOM) is not decided: it needs dlmalloc's full representation invariant over raw-pointer code that neither verifier can carry.",
+        "technique": "Verus contracts (with bit-vector lemmas) on the mechanically extracted pure size-class/alignment helpers and, over a ghost word memory (rule R7), the chunk-header and bitmap helpers of dlmalloc.rs + Kani loop-free full-domain proofs of the same helpers on the compiled crate",
+        "text": "PARTIAL — arithmetic helpers and chunk-header algebra only, not the heap property: over a ghost word memory Verus proves the 16 boundary-tag helpers of `impl Chunk` (exactly which bits of which header word change, size and in-use flags read back as written, the neighbour's P flag set/cleared with its size and C flag kept, footer = size, no other word changes) and the 6 bin-bitmap helpers (touch exactly bit idx), with the flag constants proved from their initialisers; for all inputs Verus proves the contracts of align_up, pad_request, request2size, small_index, small_index2size, is_small, is_aligned, align_offset_usize, mmap_align, least_bit and leftshift_for_tree_index (results in range, aligned, large enough, bounded waste, no arithmetic overflow under the stated preconditions; small-bin round trip as a lemma over the contracts); Kani proves on the compiled crate, for every input (loop-free), the same contracts plus compute_tree_index (in range, monotone, size inside its bin's bracket), left_bits, request2size monotonicity, and that the constants restated in the Verus unit are the crate's. The statement of C03 about live blocks over arbitrary histories (disjointness, intactness, OOM) is not decided: it needs dlmalloc's full representation invariant over raw-pointer code that neither verifier can carry.",
         "note": "A change inside malloc/free/realloc that corrupts the heap without touching these helpers is NOT detected by this check. Hook: dlmalloc::verif_hooks re-exports (feature verif-hooks). Seeded changes C03-2/C03-3 (memalign, free) are the documented misses.",
         "design_ref": "§4.C03",
     },
